@@ -332,6 +332,18 @@ func (e *Engine) verifyFunc(fn *ssa.Function, fc *FuncContract) (rep *FuncReport
 			}
 			fr.obligation("ensures", labelOr(en.Label, i+1), r.cond, t, en.Text)
 		}
+		if !fc.HasAsg && !fc.PkgInit {
+			// no frame: callers keep what they know about their mutexes across a call of this function, so it must
+			// return with every mutex that existed at entry as it found it
+			for _, k := range e.lockKeys() {
+				if _, touched := r.st.heap[k]; !touched || x.heapGet(r.st, k).S == x.heapGet(fr.entrySt, k).S {
+					continue
+				}
+				rv := Term{S: "r$lk", Sort: SInt}
+				goal := Forall([]Term{rv}, Implies(And(Le(IntLit(1), rv), Lt(rv, x.entryAlloc)), Eq(Select(x.heapGet(r.st, k), rv), Select(x.heapGet(fr.entrySt, k), rv))), Select(x.heapGet(r.st, k), rv))
+				fr.obligation("lock-neutral", shortKey(k), r.cond, goal, "a function without an assigns clause returns with every mutex as it found it")
+			}
+		}
 		if fc.HasAsg && !fc.TrustFrame {
 			x.checkFrame(fr, fc, r, envPre)
 		} else if fc.TrustFrame {
